@@ -14,6 +14,7 @@
   Everything else of the subset is tied by correspondence only (see checks/C22.json).
 -/
 import Influx.Lemmas.InfluxQL
+import Influx.Lemmas.InfluxQLMerge
 
 namespace Influx.Props.C22
 open Influx.Reducers Influx.Spec.C22 Influx.InfluxQLPipe Influx.InfluxQLPipe.Lemmas
@@ -151,6 +152,137 @@ theorem C22_raw_single (A : Arith22 V F) (q : Query) (s : Series V) (hs : Stored
       rw [hiter]
       simp only [limitOffset]
       split <;> simp [List.map_drop, List.map_take, Function.comp_def]
+  · simp [hsup]
+
+/-- the points a raw statement without GROUP BY host looks at, series after series -/
+def lookedAt (q : Query) (db : List (Series V)) : List (Pt V) :=
+  (orderedSeries q db).flatMap (seriesPoints q)
+
+theorem timeLe_eq (q : Query) (a b : Int) :
+    timeLe q a b = (if (!q.desc) = true then decide (a ≤ b) else decide (b ≤ a)) := by
+  unfold timeLe; cases q.desc <;> simp
+
+theorem seriesPoints_strict (q : Query) (s : Series V) (hs : Stored s) :
+    List.Pairwise (fun a b => tBefore (!q.desc) a.t b.t) (seriesPoints q s) := by
+  unfold seriesPoints
+  have hf : List.Pairwise (fun a b => a.t < b.t) (s.pts.filter (inRange q)) :=
+    List.Pairwise.sublist List.filter_sublist hs
+  by_cases hd : q.desc = true
+  · simp only [hd, if_true]
+    rw [List.pairwise_reverse]
+    exact hf.imp (by intro a b hab; simp [tBefore]; exact hab)
+  · have hd' : q.desc = false := by simpa using hd
+    simp only [hd', Bool.false_eq_true, if_false]
+    exact hf.imp (by intro a b hab; simp [tBefore]; exact hab)
+
+/-- **sorted merge stage + raw pipeline over several series** (no GROUP BY host): the
+    sorted merge iterator over the per-series iterators, followed by the limit iterator and
+    the scanner, returns the reference evaluator's rows — provided the timestamps the
+    statement looks at are pairwise distinct (for equal timestamps of different series the
+    order is a `container/heap` detail that no semantics fixes). -/
+theorem C22_raw_merge (A : Arith22 V F) (q : Query) (db : List (Series V))
+    (hs : ∀ s ∈ db, Stored s) (hraw : q.isRaw = true) (hnb : q.byHost = false)
+    (hdist : List.Pairwise (fun a b => a.t ≠ b.t) (lookedAt q db)) :
+    run A q db = eval A q db := by
+  unfold run eval
+  by_cases hsup : supported q = true
+  · simp only [hsup, Bool.not_true, Bool.false_eq_true, if_false, hraw, if_true]
+    cases hce : compileError q with
+    | some e => rfl
+    | none =>
+      simp only
+      congr 1
+      have hord : seriesOrder (optOf q).asc db = orderedSeries q db := by
+        simp only [seriesOrder, orderedSeries, optOf]
+        cases q.desc <;> simp
+      have hstored : ∀ s ∈ orderedSeries q db, Stored s := by
+        intro s hsm
+        apply hs
+        simp only [orderedSeries] at hsm
+        by_cases hd : q.desc = true
+        · simp only [hd, if_true, List.mem_reverse] at hsm
+          exact (sortBy_perm _ db).mem_iff.mp hsm
+        · simp only [hd] at hsm
+          exact (sortBy_perm _ db).mem_iff.mp hsm
+      -- per-series iterators = the looked-at points, tagless
+      let toSP : Pt V → SP V := fun p => { tag := none, t := p.t, v := p.v }
+      have hiter : ∀ s, seriesIter (optOf q) false s = (seriesPoints q s).map toSP := by
+        intro s
+        have hfil : (fun (p : Pt V) => decide (startOf q ≤ p.t) && decide (p.t ≤ endOf q)) = inRange q := rfl
+        simp only [seriesIter, seriesPoints, optOf, hfil]
+        by_cases hd : q.desc = true <;> simp [hd, toSP]
+      have hins : (orderedSeries q db).map (seriesIter (optOf q) false) =
+          (orderedSeries q db).map (fun s => (seriesPoints q s).map toSP) := by
+        apply List.map_congr_left; intro s _; exact hiter s
+      have hflat : ((orderedSeries q db).map (fun s => (seriesPoints q s).map toSP)).flatten =
+          (lookedAt q db).map toSP := by
+        simp [lookedAt, List.flatMap, List.map_flatten]
+      have hok : InputsOK (!q.desc) ((orderedSeries q db).map (fun s => (seriesPoints q s).map toSP)) := by
+        intro l hl
+        obtain ⟨s, hsm, rfl⟩ := List.mem_map.mp hl
+        refine ⟨?_, ?_⟩
+        · rw [List.pairwise_map]
+          exact seriesPoints_strict q s (hstored s hsm)
+        · intro p hp
+          obtain ⟨x, _, rfl⟩ := List.mem_map.mp hp
+          rfl
+      obtain ⟨hperm, hsorted⟩ := sortedMergeGo_facts (!q.desc)
+        ((((orderedSeries q db).map (fun s => (seriesPoints q s).map toSP)).map List.length).sum + 1)
+        _ hok (by rw [List.length_flatten]; omega)
+      -- the merge output is strictly ordered (distinct timestamps)
+      have hdist' : List.Pairwise (fun (a b : SP V) => a.t ≠ b.t) ((lookedAt q db).map toSP) := by
+        rw [List.pairwise_map]; exact hdist
+      rw [hflat] at hperm
+      have hdistM := (List.Perm.pairwise_iff (R := fun (a b : SP V) => a.t ≠ b.t)
+        (fun h => fun h' => h h'.symm) hperm).mpr hdist'
+      have hstrictM := (hsorted.and hdistM).imp (by
+        intro a b hab
+        have h1 := hab.1; have h2 := hab.2
+        unfold tBefore at *; cases q.desc <;> simp at * <;> omega :
+        ∀ {a b : SP V}, (¬ tBefore (!q.desc) b.t a.t) ∧ a.t ≠ b.t → tBefore (!q.desc) a.t b.t)
+      -- the specification's sort of the same points
+      have hsp := sortBy_perm (fun (a b : Pt V) => timeLe q a.t b.t) (lookedAt q db)
+      have hss : List.Pairwise (fun (a b : Pt V) => ¬ tBefore (!q.desc) b.t a.t)
+          (sortBy (fun (a b : Pt V) => timeLe q a.t b.t) (lookedAt q db)) := by
+        have := sortBy_sorted_time (fun (p : Pt V) => p.t) (!q.desc) (lookedAt q db)
+        have hle : (fun (a b : Pt V) => timeLe q a.t b.t) =
+            (fun (a b : Pt V) => if (!q.desc) = true then decide (a.t ≤ b.t) else decide (b.t ≤ a.t)) := by
+          funext a b; exact timeLe_eq q a.t b.t
+        rw [hle]; exact this
+      have hdistS := (List.Perm.pairwise_iff (R := fun (a b : Pt V) => a.t ≠ b.t)
+        (fun h => fun h' => h h'.symm) hsp).mpr hdist
+      have hstrictS := (hss.and hdistS).imp (by
+        intro a b hab
+        have h1 := hab.1; have h2 := hab.2
+        unfold tBefore at *; cases q.desc <;> simp at * <;> omega :
+        ∀ {a b : Pt V}, (¬ tBefore (!q.desc) b.t a.t) ∧ a.t ≠ b.t → tBefore (!q.desc) a.t b.t)
+      have hmergeEq : sortedMergeGo (!q.desc)
+          ((((orderedSeries q db).map (fun s => (seriesPoints q s).map toSP)).map List.length).sum + 1)
+          ((orderedSeries q db).map (fun s => (seriesPoints q s).map toSP)) =
+          (sortBy (fun (a b : Pt V) => timeLe q a.t b.t) (lookedAt q db)).map toSP := by
+        apply strict_sorted_perm_unique (fun (p : SP V) => p.t) (!q.desc)
+        · exact hstrictM
+        · rw [List.pairwise_map]; exact hstrictS
+        · exact hperm.trans (hsp.map toSP).symm
+      have hasc : (optOf q).asc = !q.desc := rfl
+      simp only [rawPipeline, hord, hnb, hins, hasc, hmergeEq]
+      have htag : ∀ p ∈ (sortBy (fun (a b : Pt V) => timeLe q a.t b.t) (lookedAt q db)).map toSP, p.tag = none := by
+        intro p hp
+        obtain ⟨x, _, rfl⟩ := List.mem_map.mp hp
+        rfl
+      rw [C22_limit_stage q none _ htag]
+      -- the specification side
+      by_cases hemp : orderedSeries q db = []
+      · have hl : lookedAt q db = [] := by simp [lookedAt, hemp]
+        simp [groups, hnb, hemp, hl, sortBy, limitOffset]
+      · have hne : (orderedSeries q db).isEmpty = false := by
+          cases h : orderedSeries q db <;> simp_all
+        simp only [groups, hnb, Bool.false_eq_true, if_false, hne, List.flatMap_cons, List.flatMap_nil,
+          List.append_nil, rawGroup]
+        have : (orderedSeries q db).flatMap (seriesPoints q) = lookedAt q db := rfl
+        rw [this]
+        simp only [limitOffset]
+        split <;> simp [List.map_drop, List.map_take, Function.comp_def, toSP]
   · simp [hsup]
 
 /-! ## The statement checker accepts the model -/
